@@ -15,6 +15,7 @@ var (
 	fEvents = flag.String("verif.events", "", "comma separated list of event types to record (empty = all)")
 	fMode   = flag.String("verif.mode", "scenarios", "driver mode")
 	fWork   = flag.String("verif.work", "", "directory for scenario working directories (default: the system temp dir)")
+	fChild  = flag.String("verif.child", "", "child specification (crash-point enumeration)")
 )
 
 func TestVerif(t *testing.T) {
@@ -68,3 +69,11 @@ func TestVerif(t *testing.T) {
 }
 
 var modes = map[string]func(*testing.T, *Recorder){}
+
+// TestVerifChild is the body of a child process of the crash-point enumeration.
+func TestVerifChild(t *testing.T) {
+	if *fChild == "" {
+		t.Skip("not a child")
+	}
+	ChildMain(t, *fChild)
+}
